@@ -46,7 +46,7 @@ def scenario(ctx, p):
     kw = {}
     if op in ("add", "dispense") and pairs is not None:
         # the composition argument must not influence the volume bookkeeping: none / empty dicts / a named liquid
-        comp = ctx.choose("compositions", ["none", "empty", "named"])
+        comp = ctx.choose("compositions", ["none", "empty", "named"] if "list-scalar" in p["shapes"] else ["none"])
         if comp != "none":
             kw["compositions"] = [({} if comp == "empty" else {"water": 1.0}) for _ in pairs]
     if op in ("add", "remove"):
